@@ -499,3 +499,129 @@ def guard_facts(prog, fn, bb):
         elif cd.kind == "local":
             out.append(("local", cd.place, truth, sb))
     return out
+
+
+# ---------------------------------------------------------------------------------------------------------------------
+# cross-function provenance
+
+def _fake_operand(local, proj):
+    p = []
+    for n in proj:
+        if n.startswith("as "):
+            p.append({"dc": n[3:]})
+        else:
+            p.append({"f": n, "n": n})
+    return {"cp": {"l": local, "p": p}}
+
+
+_XPASS = {
+    "core::option::Option::take": 0,
+    "core::option::Option::as_ref": 0,
+    "core::option::Option::as_mut": 0,
+    "core::option::Option::cloned": 0,
+    "core::option::Option::copied": 0,
+    "<alloc::sync::Arc<T, A> as core::ops::deref::Deref>::deref": 0,
+    "core::mem::take": 0,
+}
+
+
+def _xpass(c):
+    n = c.name
+    if n in _XPASS:
+        return _XPASS[n]
+    if n.endswith("as core::clone::Clone>::clone") or n.endswith("::deref") or n.endswith("::deref_mut"):
+        return 0
+    return None
+
+
+def xorigins(prog, fn, start, depth=5, through_calls=_xpass, max_leaves=400):
+    """Backward trace across functions: like origins(), but a parameter is followed to the argument at every call
+    site of the function, a call into a function of the program is followed into what that function returns, and a
+    read of a variant's field looks into the aggregates that built the enum (definitions building another variant
+    are infeasible for that read and dropped).  `then_some`, `Option::take`, `clone`, `deref` pass their operand.
+    Returns [(Fn, Origin)] leaves; a leaf of kind 'arg' remains where the function has no visible caller (or is a
+    closure) or the depth bound is reached."""
+    leaves = []
+    seen = set()
+    work = [(fn, start, depth)]
+    while work and len(leaves) < max_leaves:
+        f, st, d = work.pop()
+        for o in origins(f, st, through_calls=through_calls):
+            key = (f.path, o.key())
+            if key in seen:
+                continue
+            seen.add(key)
+            if o.kind == "arg" and d > 0 and f.kind != "closure" and 1 <= o.arg <= f.argc:
+                sites = prog.callers().get(f.path, [])
+                sites = [c for c in sites if len(c.args) >= o.arg]
+                if not sites:
+                    leaves.append((f, o))
+                    continue
+                for c in sites:
+                    a = c.args[o.arg - 1]
+                    if "c" in a:
+                        leaves.append((c.fn, Origin("const", bb=c.bb, const=a["c"], proj=o.proj)))
+                    else:
+                        p = op_place(a)
+                        work.append((c.fn, _fake_operand(p["l"], _proj_names(p) + o.proj), d - 1))
+            elif o.kind == "call" and o.call.name == "core::bool::<impl bool>::then_some" and len(o.call.args) == 2:
+                # Some(value) or None: a read of the payload sees the value
+                if o.proj[:2] == ("as Some", "0"):
+                    a = o.call.args[1]
+                    if "c" in a:
+                        leaves.append((f, Origin("const", bb=o.bb, const=a["c"], proj=o.proj[2:])))
+                    else:
+                        p = op_place(a)
+                        work.append((f, _fake_operand(p["l"], _proj_names(p) + o.proj[2:]), d))
+                else:
+                    leaves.append((f, o))
+            elif o.kind == "call" and d > 0 and prog.has_fn(o.call.name) and prog.fn(o.call.name).kind != "closure" \
+                    and prog.fn(o.call.name).raw.get("blocks"):
+                g = prog.fn(o.call.name)
+                work.append((g, _fake_operand(0, o.proj), d - 1))
+            elif o.kind == "agg" and o.proj and o.proj[0].startswith("as ") and o.rv.get("agg") == "adt":
+                if o.rv.get("variant") != o.proj[0][3:]:
+                    continue        # this definition builds another variant: not what the read sees
+                rest = o.proj[1:]
+                if not rest:
+                    leaves.append((f, o))
+                    continue
+                idx = None
+                if rest[0].isdigit() and int(rest[0]) < len(o.rv["ops"]):
+                    idx = int(rest[0])
+                elif rest[0] in o.rv.get("fields", []):
+                    idx = o.rv["fields"].index(rest[0])
+                if idx is None:
+                    leaves.append((f, o))
+                    continue
+                op = o.rv["ops"][idx]
+                if "c" in op:
+                    leaves.append((f, Origin("const", bb=o.bb, const=op["c"], proj=rest[1:])))
+                else:
+                    p = op_place(op)
+                    work.append((f, _fake_operand(p["l"], _proj_names(p) + rest[1:]), d))
+            else:
+                leaves.append((f, o))
+    return leaves
+
+
+def field_producers(prog, field):
+    """Every place in the program that gives a struct field of that name a value: [(Fn, bb, adt|None, operand|None,
+    call|None)] - the operand at the field's position in each aggregate that has such a field, and every direct
+    assignment (or call result) to a place ending in that field."""
+    out = []
+    for f in prog.fns.values():
+        for bb, i, s in f.all_stmts():
+            if s.get("k") != "assign":
+                continue
+            rv = s["rv"]
+            if rv["k"] == "agg" and rv.get("agg") == "adt" and field in rv.get("fields", []):
+                out.append((f, bb, rv.get("adt"), rv["ops"][rv["fields"].index(field)], None))
+            pr = s["place"].get("p", [])
+            if pr and isinstance(pr[-1], dict) and pr[-1].get("n") == field:
+                out.append((f, bb, pr[-1].get("of"), rv.get("op") if rv["k"] == "use" else None, None))
+        for c in f.calls():
+            pr = (c.dest or {}).get("p", [])
+            if pr and isinstance(pr[-1], dict) and pr[-1].get("n") == field:
+                out.append((f, c.bb, pr[-1].get("of"), None, c))
+    return out
